@@ -32,7 +32,7 @@ func init() {
 			"NAL units are at least 3 bytes, no filler NAL (type 12), no RTCP sender report arriving mid-stream, no 32-bit RTP timestamp wrap (outside the statement's quantifier)",
 			"a fragmented unit whose fragments were duplicated or reordered may be dropped (the statement only forbids emitting truncated or spliced units)",
 		},
-		RequiredProbes: []string{"c06.fu-broken-by-loss", "c06.fu-complete", "c06.seq-wrap-inside-fu"},
+		RequiredProbes: []string{"c06.fu-broken-by-loss", "c06.fu-complete", "c06.seq-wrap-inside-fu", "c06.sender-report-first"},
 	})
 }
 
@@ -253,6 +253,13 @@ func buildC06(tier string) sim.Scenario {
 		if err != nil {
 			w.Fail("C06/harness", "NewDemuxer: %v", err)
 			return
+		}
+		if tp.Bool() {
+			// sender reports ahead of the media: every unit is then mapped through the same report
+			// (differences of presentation times must still equal differences of RTP timestamps)
+			w.Probe("c06.sender-report-first")
+			dm.WriteRtpPacket(&rtp.Packet{Channel: rtp.ChannelAudioControl, Data: rtcpSR(3900000000, 440000+uint32(tp.Choose(2000)))})
+			dm.WriteRtpPacket(&rtp.Packet{Channel: rtp.ChannelVideoControl, Data: rtcpSR(3900000000, 1000+uint32(tp.Choose(5000)))})
 		}
 		for _, a := range arrivals {
 			ch := byte(rtp.ChannelVideo)
